@@ -993,6 +993,83 @@ def r12(k: Kit) -> None:
     rep.floor('C15.R12', 'imports after a passphrase resolution', n, 2)
 
 
+def r13(k: Kit) -> None:
+    """Foreign but legal containers are read."""
+    from ..absint import evaluate, Obj, NotEvaluable, _Raise
+    rep = k.rep
+    idx = k.idx
+    rep.rule('C15.R13', 'certificate options: the end-of-data check of an '
+             'option value runs only for options asyncssh decodes itself '
+             '(guarded by the decoder lookup) - the value of an unknown '
+             'non-critical extension (login@github.com=octocat) is skipped, '
+             'not required to be empty; PKCS#8: _decode_pkcs8_private '
+             'evaluated on PrivateKeyInfo tuples of version 0 and 1 with and '
+             'without the optional attributes / public key fields reaches '
+             'the handler for all of them')
+    fi = k.func('public_key.SSHOpenSSHCertificate._decode_options')
+    g = k.cfg(fi)
+    ends = [n for n, c in k.call_nodes(fi, lambda c: is_call(c, 'check_end')
+                                       and dotted(c.func.value) != 'packet')]
+    for n in ends:
+        w = g.guarded_by(n.id, lambda x: True if x.kind == 'atom' and
+                         dotted(x.ast) == 'decoder' else None)
+        rep.check(w is None, 'C15.R13',
+                  key(fi, 'value of an unknown extension is skipped'),
+                  'check_end() on the option value only under `if decoder`',
+                  'the value of an option asyncssh has no decoder for is '
+                  'required to be empty: certificates written by OpenSSH or '
+                  'a foreign CA with e.g. `-O extension:name=value` are '
+                  'rejected on import', k.loc(fi, n),
+                  g.describe_path(w) if w else None)
+    pf = k.func('public_key._decode_pkcs8_private')
+    body = [st for st in pf.node.body if not (
+        isinstance(st, ast.Expr) and isinstance(st.value, ast.Constant))]
+    alg = Obj('OID')
+    shapes = [(0, (alg, None), b'k'), (0, (alg,), b'k'),
+              (0, (alg, None), b'k', Obj('ATTRS')),
+              (1, (alg, None), b'k', Obj('ATTRS')),
+              (1, (alg, None), b'k', Obj('ATTRS'), Obj('PUB')),
+              (1, (alg, None), b'k')]
+    bad = None
+    for kd in shapes:
+        def on_call(nm, args, env):
+            if nm == '_pkcs8_oid_map.get':
+                return Obj('H')
+            if nm == 'H.decode_pkcs8_private':
+                return ('params',)
+            if nm == 'H.make_private':
+                return Obj('KEY')
+            if nm == 'ObjectIdentifier':
+                return Obj('RSAOID')
+            if nm == 'isinstance':
+                t = args[1]
+                tn = getattr(t, 'qual', None) or getattr(t, 'tag', '') or str(t)
+                if 'tuple' in str(tn):
+                    return isinstance(args[0], tuple)
+                if 'bytes' in str(tn):
+                    return isinstance(args[0], bytes)
+                return False
+            if nm == 'len':
+                return len(args[0])
+            return Obj('x')
+        try:
+            o = evaluate(idx, pf.module, body, {},
+                         {'key_data': kd,
+                          'unsafe_skip_rsa_key_validation': None,
+                          'OMIT': Obj('OMIT')}, on_call)
+        except NotEvaluable as exc:
+            rep.error('C15.R13', key(pf, 'not-evaluable'), str(exc))
+            return
+        if not (o.kind == 'return' and o.value == Obj('KEY')) and bad is None:
+            bad = (f'PrivateKeyInfo version {kd[0]} with {len(kd)} fields: '
+                   f'{o.kind} {o.value!r}')
+    rep.count('eval.pkcs8_shapes', len(shapes))
+    rep.check(bad is None, 'C15.R13', key(pf, 'optional PKCS#8 fields'),
+              f'{len(shapes)} shapes accepted', f'{bad}: keys written by '
+              'CryptoAPI / NSS / Java with an attributes field (legal in '
+              'version 0, RFC 5208) are rejected', pf.loc(pf.node))
+
+
 def run(idx, rep, tier):
     k = Kit(idx, rep)
     rep.assumptions += NOT_DECIDED
@@ -1007,3 +1084,4 @@ def run(idx, rep, tier):
     r9(k)
     r11(k)
     r12(k)
+    r13(k)
